@@ -33,7 +33,7 @@ def mkcfg(kind, parent, req, **kw):
         "crit": arr("crit", False), "forever": arr("forever", False),
         "win": arr("win", 0), "tmo": arr("tmo", -1), "stmo": arr("stmo", 1),
         "dur": arr("dur", 1), "out": arr("out", "ok"),
-        "sdur": arr("sdur", 0), "cdur": arr("cdur", 0),
+        "sdur": arr("sdur", 0), "cdur": arr("cdur", 0), "scdur": arr("scdur", 0),
         "horizon": kw.get("horizon", 0),
     }
 
@@ -213,6 +213,7 @@ def random_scenario(rng, sid, profile=None):
     maxd = pf.get("max_dur", 3)
     crit, forever, win, tmo, stmo, dur, out, sdur, cdur = \
         [], [], [], [], [], [], [], [], []
+    scdur = []
     for i in range(n):
         is_s = kind[i] == "sched"
         crit.append(rng.random() < pf.get("p_crit", 0.4))
@@ -225,16 +226,18 @@ def random_scenario(rng, sid, profile=None):
             out.append("ok")
             sdur.append(0)
             cdur.append(0)
+            scdur.append(0)
         else:
             never = rng.random() < pf.get("p_never", 0.05)
             dur.append(-1 if never else rng.randint(0, maxd))
             out.append("exc" if rng.random() < pf.get("p_exc", 0.2) else "ok")
             sdur.append(rng.choice(pf.get("sdurs", [0, 0, 0, 1, 2, 3])))
             cdur.append(rng.choice(pf.get("cdurs", [0, 0, 0, 1, 2])))
+            scdur.append(rng.choice(pf.get("scdurs", [0, 0, 0, 0, 1, 2])))
     crit[0] = rng.random() < 0.4
     forever[0] = False
     cfg = mkcfg(kind, parent, req, crit=crit, forever=forever, win=win,
-                tmo=tmo, stmo=stmo, dur=dur, out=out, sdur=sdur, cdur=cdur,
+                tmo=tmo, stmo=stmo, dur=dur, out=out, sdur=sdur, cdur=cdur, scdur=scdur,
                 pure=rng.random() < pf.get("p_pure", 0.25))
     perm = list(range(1, n + 1))
     rng.shuffle(perm)
